@@ -807,6 +807,22 @@ def rule_ts1(ctx):
             and isinstance(n.func, ast.Attribute) and n.func.attr == "set"
             and dotted(n.func.value) in copies]
     if not sets:
+        tries = [n for n in ast.walk(f.node) if isinstance(n, ast.Try)]
+        inner = [x for t in tries for b in t.body for x in ast.walk(b)
+                 if isinstance(x, ast.Return) and x.value is not None
+                 and dotted(x.value) not in copies]
+        if inner:
+            x = inner[0]
+            r.violation(
+                "TS1", f"{f.fq}|returns-rebuilt", loc(f, x),
+                norm_stmt(x)[:140],
+                f"apply returns `{dotted(x.value)[:60]}` instead of the "
+                "copy of its argument (and never writes the copy): a "
+                "constructor resets unit_ndims / aux_ndims / dual_ndims to "
+                "the class defaults, so objects built with non-default "
+                "ndims change composite shape under T @ X",
+                instance="apply:returns-copy")
+            return
         raise AnalysisError("Transformation.apply: no <copy>.set(...) call")
     first = min((n.lineno, n.col_offset) for n in sets)
     late = [n for n in ast.walk(f.node) if isinstance(n, ast.Attribute)
@@ -815,6 +831,27 @@ def rule_ts1(ctx):
             and dotted(n.value) in copies
             and (n.lineno, n.col_offset) > first
             and not any(n in list(ast.walk(s)) for s in sets)]
+    # the result is that copy (type, per-instance unit/aux/dual ndims and
+    # base ring travel with it); re-constructing through the class resets
+    # the ndims to the class defaults
+    tries = [n for n in ast.walk(f.node) if isinstance(n, ast.Try)]
+    inner = [x for t in tries for b in t.body for x in ast.walk(b)
+             if isinstance(x, ast.Return) and x.value is not None]
+    rebuilt = [x for x in inner if dotted(x.value) not in copies]
+    if rebuilt:
+        x = rebuilt[0]
+        r.violation(
+            "TS1", f"{f.fq}|returns-rebuilt", loc(f, x), norm_stmt(x)[:140],
+            f"apply returns `{dotted(x.value)[:60]}` instead of the copy of "
+            "its argument: a constructor resets unit_ndims / aux_ndims / "
+            "dual_ndims to the class defaults, so for an object built with "
+            "non-default ndims (PointCollection(data, unit_ndims=3), "
+            "ProjectiveObject(data, unit_ndims=2)) T @ X has another "
+            "composite shape than X and (A @ B) @ X != A @ (B @ X)",
+            instance="apply:returns-copy")
+    elif inner:
+        r.ok("TS1", "apply:returns-copy", loc(f, inner[0]),
+             norm_stmt(inner[0]), "the transformed copy itself is returned")
     if not late:
         r.ok("TS1", "apply:read-before-write", loc(f, sets[0]),
              dotted(sets[0])[:100],
@@ -837,3 +874,118 @@ def _stmt_of_node(f, node):
     while not isinstance(cur, ast.stmt):
         cur = parents[cur]
     return cur
+
+
+
+# ---------------------------------------------------------------------------
+# P1g: the coordinate getters leave the caller's array alone (up to the one
+# tolerated in-place positive rescaling by utils.normalize)
+
+P1G_GETTERS = [
+    ("geometry_tools/hyperbolic.py", "hyperboloid_coords"),
+    ("geometry_tools/hyperbolic.py", "kleinian_to_poincare"),
+    ("geometry_tools/hyperbolic.py", "poincare_to_kleinian"),
+    ("geometry_tools/hyperbolic.py", "poincare_to_halfspace"),
+    ("geometry_tools/hyperbolic.py", "halfspace_to_poincare"),
+    (PROJ, "affine_coords"),
+    (PROJ, "projective_coords"),
+]
+
+
+def rule_p1g(ctx):
+    r = ctx.r
+    r.rule("P1g", "the module-level coordinate maps never store into the "
+                  "array they are given (item / masked / augmented stores, "
+                  "out= arguments); the only tolerated in-place effect is "
+                  "utils.normalize's rescaling of each row by a positive "
+                  "factor, which changes no point, segment endpoint order "
+                  "or tangent direction -- a sign flip or a permutation "
+                  "written back does")
+
+    def summ(call, name):
+        if name in ("utils.normalize", "normalize"):
+            return {"returns": "arg0"}          # tolerated, see rule text
+        return _summ(call, name)
+    for rel, q in P1G_GETTERS:
+        f = ctx.p.get_function(rel, q)
+        r.analysed(f)
+        bad = []
+        n_mut = 0
+        for fl in ({"column_vectors": False}, {"column_vectors": True}):
+            it = Interp(f.node, flags=fl, summaries=summ).run()
+            n_mut = max(n_mut, len(it.mutations))
+            for m in it.mutations:
+                direct = [x for x in m.roots if x.startswith("param:")]
+                if direct and not (m.kind == "augstore"
+                                   and isinstance(m.node, ast.Name)
+                                   and False):
+                    bad.append((m, direct))
+        inst = f"{q}:argument-untouched"
+        if not bad:
+            r.ok("P1g", inst, loc(f, f.node), "",
+                 f"{n_mut} store(s), none into the argument")
+            continue
+        m, direct = bad[0]
+        con = norm_stmt(m.stmt)
+        r.violation(
+            "P1g", f"{f.fq}|{con}", loc(f, m.stmt), con[:160],
+            f"`{m.target}` ({m.kind}) is (a view of) the caller's array "
+            f"{direct}: for an object this is its stored proj_data, so a "
+            "read-only query (coords, distance) rewrites the primary data "
+            "while the derived data (ideal endpoints, polygon edges, the "
+            "tangent vector) keeps describing the old rows",
+            instance=inst)
+
+
+
+# ---------------------------------------------------------------------------
+# FR2: restructuring methods hand out objects that went through set()
+
+
+def rule_fr2(ctx):
+    r = ctx.r
+    r.rule("FR2", "flatten_to_unit returns its shallow copy only after the "
+                  "copy was given data through set() (which stores a "
+                  "private array): a path that returns the bare copy shares "
+                  "the primary buffer with the original, and item "
+                  "assignment on one moves the other while its derived "
+                  "data stays put")
+    f = ctx.p.get_function(PROJ, "ProjectiveObject.flatten_to_unit")
+    r.analysed(f)
+    copies = {dotted(n.targets[0]) for n in ast.walk(f.node)
+              if isinstance(n, ast.Assign) and len(n.targets) == 1
+              and isinstance(n.value, ast.Call)
+              and dotted(n.value.func) in ("copy", "copy.copy")}
+    sets = [n for n in ast.walk(f.node) if isinstance(n, ast.Expr)
+            and isinstance(n.value, ast.Call)
+            and isinstance(n.value.func, ast.Attribute)
+            and n.value.func.attr == "set"
+            and dotted(n.value.func.value) in copies]
+    rets = [n for n in ast.walk(f.node) if isinstance(n, ast.Return)
+            and n.value is not None and dotted(n.value) in copies]
+    if not copies or not rets:
+        r.note("FR2", loc(f, f.node), "flatten_to_unit",
+               "the copy-then-set idiom is not present (not judged)")
+        return
+    bad = None
+    npaths = 0
+    for p in enumerate_paths(f.node, markers=sets + rets):
+        if not (isinstance(p.terminal, ast.Return)
+                and any(p.terminal is x for x in rets)):
+            continue
+        npaths += 1
+        if not any(any(e is s for s in sets) for e in p.events):
+            bad = p.terminal
+    if bad is None:
+        r.ok("FR2", "flatten_to_unit:set-before-return", loc(f, rets[0]),
+             norm_stmt(rets[0]),
+             f"{npaths} return path(s), all after <copy>.set(...)")
+    else:
+        r.violation(
+            "FR2", f"{f.fq}|bare-copy", loc(f, bad), norm_stmt(bad),
+            "a path returns the shallow copy without calling set() on it: "
+            "the result shares proj_data with the original (for objects "
+            "that are already flat), so `flat[i] = x` silently rewrites "
+            "the original's vertices / endpoints while its edges / ideal "
+            "endpoints / projected vector are not recomputed",
+            instance="flatten_to_unit:set-before-return")
